@@ -56,6 +56,8 @@ def r_abs(z):
     z = _c(z)
     if np.any(np.abs(z.real) < _margin()):
         _kink("abs@0")
+    if not np.iscomplexobj(z):
+        return np.abs(z)
     return z * np.sign(z.real)
 
 
@@ -68,6 +70,8 @@ def r_cbrt(z):
     s = np.sign(z.real)
     if np.any(np.abs(z.real) < _margin()):
         _kink("cbrt@0")
+    if not np.iscomplexobj(z):
+        return np.cbrt(z)
     return s * np.power(z * s, 1.0 / 3.0)
 
 
@@ -75,6 +79,8 @@ def r_maximum(a, b):
     a, b = _c(a), _c(b)
     if np.any(np.abs(a.real - b.real) < _margin()):
         _kink("maximum_tie")
+    if not iscomplex_mode(a, b):
+        return np.maximum(a, b)
     return np.where(a.real >= b.real, a, b)
 
 
@@ -82,6 +88,8 @@ def r_minimum(a, b):
     a, b = _c(a), _c(b)
     if np.any(np.abs(a.real - b.real) < _margin()):
         _kink("minimum_tie")
+    if not iscomplex_mode(a, b):
+        return np.minimum(a, b)
     return np.where(a.real <= b.real, a, b)
 
 
@@ -96,16 +104,22 @@ def r_clip(a, lo, hi):
 
 def r_logaddexp(a, b):
     a, b = _c(a), _c(b)
+    if not iscomplex_mode(a, b):
+        return np.logaddexp(a, b)
     m = np.maximum(a.real, b.real)
     return m + np.log(np.exp(a - m) + np.exp(b - m))
 
 
 def r_logaddexp2(a, b):
+    if not iscomplex_mode(_c(a), _c(b)):
+        return np.logaddexp2(a, b)
     return r_logaddexp(_c(a) * np.log(2.0), _c(b) * np.log(2.0)) / np.log(2.0)
 
 
 def r_arctan2(y, x):
     y, x = _c(y), _c(x)
+    if not iscomplex_mode(y, x):
+        return np.arctan2(y, x)
     off = np.where(x.real < 0, np.where(y.real >= 0, np.pi, -np.pi), 0.0)
     return np.arctan(y / x) + off
 
@@ -122,6 +136,8 @@ def r_arccot(z):
 
 def r_sinc(z):
     z = _c(z)
+    if not np.iscomplexobj(z):
+        return np.sinc(z)
     y = np.pi * z
     return np.sin(y) / y
 
@@ -222,6 +238,8 @@ def r_prod(z, axis=None, keepdims=False):
 
 def r_var(z, axis=None, ddof=0, keepdims=False):
     z = _c(z)
+    if not np.iscomplexobj(z):
+        return np.asarray(np.var(z, axis=_t(axis), ddof=ddof, keepdims=keepdims))
     axes = _norm_axes(_t(axis), z.ndim)
     n = int(np.prod([z.shape[a] for a in axes])) if axes else 1
     mu = np.mean(z, axis=axes, keepdims=True)
@@ -234,6 +252,8 @@ def r_std(z, axis=None, ddof=0, keepdims=False):
     v = r_var(z, axis=axis, ddof=ddof, keepdims=keepdims)
     if np.any(np.abs(v.real) < 1e-6):
         _kink("std@0")
+    if not np.iscomplexobj(_c(z)):
+        return np.asarray(np.std(z, axis=_t(axis), ddof=ddof, keepdims=keepdims))
     return np.sqrt(v)
 
 
@@ -241,7 +261,7 @@ def _r_maxmin(z, axis, keepdims, which):
     z = _c(z)
     axes = _norm_axes(_t(axis), z.ndim)
     if z.ndim == 0:
-        return z
+        return z.copy()
     ext = (z.real.max if which == "max" else z.real.min)(axis=axes, keepdims=True)
     gap = np.abs(z.real - ext)
     hit = gap == 0
@@ -255,6 +275,8 @@ def _r_maxmin(z, axis, keepdims, which):
         idx = flat.argmax(axis=-1)
         np.put_along_axis(first, idx[..., None], True, axis=-1)
         hit = np.moveaxis(first.reshape(moved.shape), tuple(range(-len(axes), 0)), axes)
+    if not np.iscomplexobj(z):
+        return np.asarray((np.max if which == "max" else np.min)(z, axis=axes, keepdims=keepdims))
     out = np.sum(z * hit, axis=axes, keepdims=keepdims)
     return np.asarray(out)
 
